@@ -596,10 +596,59 @@ func (u *Unit) applyContract(st *State, ct *Contract, pk, key string, _ any, sig
 			st.assume(t)
 		}
 	}
+	// `fills b`: the result is append(b, ...) stored in b's spare capacity (h.Sum(arr[:0]) idiom):
+	// the array b was sliced from receives the appended elements
+	for _, w := range ct.Fills {
+		idx := -1
+		for i, p := range ct.Params {
+			if p.Name == w {
+				idx = i
+			}
+		}
+		for i := 0; i < declSig.Params().Len(); i++ {
+			if declSig.Params().At(i).Name() == w {
+				idx = i
+			}
+		}
+		if idx < 0 || idx >= len(args) || len(results) == 0 || u.curCallArgs == nil || idx >= len(u.curCallArgs) {
+			continue
+		}
+		if se, ok := ast.Unparen(u.curCallArgs[idx]).(*ast.SliceExpr); ok {
+			base := u.eval(st, se.X)
+			if at, ok := base.Ty.Underlying().(*types.Array); ok {
+				hi := strconv.FormatInt(at.Len(), 10)
+				if se.High != nil {
+					hi = u.eval(st, se.High).T
+				}
+				rarr, _, rlen, _ := u.sliceParts(results[0])
+				_, _, blen, _ := u.sliceParts(args[idx])
+				so := u.sortOf(base.Ty)
+				na := u.fresh("filled", so)
+				u.nfresh++
+				i := fmt.Sprintf("fi!%d", u.nfresh)
+				// elements hi .. hi+(rlen-blen) come from the result, the rest is unchanged
+				st.assume(fmt.Sprintf("(forall ((%s Int)) (! (= (select %s %s) (ite (and (<= %s %s) (< %s (+ %s (- %s %s)))) (select %s (+ %s (- %s %s))) (select %s %s))) :pattern ((select %s %s))))", i, na, i, hi, i, i, hi, rlen, blen, rarr, blen, i, hi, base.T, i, na, i))
+				u.assign(st, se.X, Val{T: na, Ty: base.Ty, So: so})
+			}
+		}
+	}
 	if ct.Trusted || ct.Extern {
 		u.trustedUsed[pk+"."+key] = true
 	}
+	u.checkAlways(st, fmt.Sprintf("@call %s#%d", shortKey(key), k), pos)
 	return results
+}
+
+// checkAlways: the `always` clauses of the function under verification must hold after every
+// call (the only points at which the modelled external state changes).
+func (u *Unit) checkAlways(st *State, where string, pos token.Pos) {
+	if u.contract == nil || u.inlineDepth > 0 || len(u.contract.Always) == 0 || u.entry == nil {
+		return
+	}
+	env := u.funcEnvAt(st, pos)
+	for i, a := range u.contract.Always {
+		u.checkClause(env, a, "always", labelOr(a.Label, fmt.Sprint(i+1))+where, pos, st, true)
+	}
 }
 
 func labelOr(l, d string) string {
@@ -675,6 +724,12 @@ func (u *Unit) havocModifies(st, pre *State, ct *Contract, env *SpecEnv, lit *as
 func (u *Unit) havocTarget(st, pre *State, m string, env *SpecEnv, lit *ast.FuncLit) {
 	if m == "heap" {
 		u.havocAll(st)
+		return
+	}
+	if strings.HasPrefix(m, "ghost.") {
+		key, sort := u.ghostVarKey(env.home, strings.TrimPrefix(m, "ghost."))
+		u.heapGet(st, key, sort)
+		u.havocHeap(st, key)
 		return
 	}
 	if strings.HasPrefix(m, "global.") {
@@ -1112,4 +1167,24 @@ func (u *Unit) tryResolveNamed(home *packages.Package, name string) (t types.Typ
 	}()
 	ty, _ := u.resolveType(home, &STypeExpr{Kind: "name", Name: name})
 	return ty
+}
+
+// ghostVarKey resolves "name" or "pkg.name" of a ghostvar to its heap key.
+func (u *Unit) ghostVarKey(home *packages.Package, name string) (string, string) {
+	pkPath := ""
+	if home != nil {
+		pkPath = home.PkgPath
+	}
+	if i := strings.LastIndex(name, "."); i >= 0 {
+		if p := (&SpecEnv{u: u, home: home}).importedPkg(name[:i]); p != nil {
+			pkPath = p.Path()
+		}
+		name = name[i+1:]
+	}
+	gv, ok := u.eng.ghostVars[pkPath+"."+name]
+	if !ok {
+		panic(specErr{"unknown ghostvar " + name})
+	}
+	_, so := u.resolveType(u.eng.pkgs[pkPath], gv.T)
+	return "GV_" + mangle(lastSeg(pkPath)) + "_" + mangle(name), so
 }
